@@ -65,6 +65,7 @@ func init() {
 	Plans["C01"] = planC01
 	Plans["C19"] = planC19
 	Plans["C13"] = planC13
+	Plans["C18"] = planC18
 }
 
 // Alphabets for S(L,Σ) (DESIGN 1.8) and token sets for token-mode sources.
@@ -307,5 +308,39 @@ func planC13(tier string, seed int64) (*Plan, error) {
 	}
 	p.Assumptions = []string{"pre-states are well-formed forests (representation invariant: parent/sibling/first/last/childCount agree); one step from an arbitrary well-formed state covers histories of any length over the pool"}
 	p.Rule = "shape, operation and operands are solver-enumerated choices (IntRange + concretisation); each path is one (forest, call) pair"
+	return p, nil
+}
+
+func planC18(tier string, seed int64) (*Plan, error) {
+	p := &Plan{MustReach: []string{"done", "advance", "advance-line", "set-position", "set-padding", "skip-spaces", "read-rune", "find-closure", "advance-pad", "skip-blank"}}
+	small := "a \t\n[]\\"
+	if tier == "thorough" {
+		p.Jobs = append(p.Jobs, job("H_c18_reader", "n", 3, "k", 3))
+		p.Jobs = append(p.Jobs, job("H_c18_reader", "n", 5, "k", 2, "alpha", small))
+		p.Jobs = append(p.Jobs, job("H_c18_block", "n", 3, "k", 2))
+		p.Jobs = append(p.Jobs, job("H_c18_block", "n", 5, "k", 2, "alpha", "a \t\n"))
+		p.Jobs = append(p.Jobs, job("H_c18_segment", "n", 5))
+	} else {
+		for n := 0; n <= 3; n++ {
+			p.Jobs = append(p.Jobs, job("H_c18_reader", "n", n, "k", 2))
+		}
+		p.Jobs = append(p.Jobs, job("H_c18_reader", "n", 2, "k", 3, "alpha", "a\t\n[\xa9"))
+		p.Jobs = append(p.Jobs, job("H_c18_reader", "n", 4, "k", 2, "alpha", "a\t\n"))
+		for n := 1; n <= 2; n++ {
+			p.Jobs = append(p.Jobs, job("H_c18_block", "n", n, "k", 2))
+		}
+		p.Jobs = append(p.Jobs, job("H_c18_block", "n", 3, "k", 1))
+		p.Jobs = append(p.Jobs, job("H_c18_block", "n", 3, "k", 2, "alpha", "a\t\n"))
+		p.Jobs = append(p.Jobs, job("H_c18_segment", "n", 3))
+		p.Jobs = append(p.Jobs, job("H_c18_segment", "n", 4, "alpha", "a \t"))
+	}
+	p.Bounds = map[string]interface{}{
+		"sources":   "every source of the stated length over {a, space, TAB, LF, CR, C3, A9, [, ], `, \\} (smaller alphabets for the longer lengths, listed per job in evidence samples)",
+		"histories": "every sequence of k calls among Advance(n<=remaining), AdvanceLine, Position/SetPosition(recorded), SetPadding(0..3), SkipSpaces, ReadRune, FindClosure('[',']', all 8 option sets, no Advance), AdvanceAndSetPadding, SkipBlankLines, FindClosure(Advance)+PrecendingCharacter; quick: reader (n<=3,k=2), (n=2,k=3 over 5 bytes), (n=4,k=2 over 3 bytes); block reader (n<=2,k=2), (n=3,k=1), (n=3,k=2 over 3 bytes); thorough: reader (3,3),(5,2 small); block (3,2),(5,2 small)",
+		"block":     "BlockReader line lists: every suffix of the source's physical lines, first two lines with optional 1-byte skip and padding 0..2",
+		"segment":   "Segment{Start,Stop,Padding} over every buffer of length 3 (4 over a 3-byte alphabet), all start<=stop, padding 0..3",
+		"outside":   "Match/FindSubMatch (regexp over the reader), longer sources and histories, BlockReader.Value across lines",
+	}
+	p.Assumptions = []string{"oracle: the flattened remaining view computed from Position() and the source; each call is specified as a relation between the view before and after (no re-implementation of the cursor)"}
 	return p, nil
 }
